@@ -254,6 +254,20 @@ class HybridClass(metaclass=MetaHybridClass):
 
                 pyname = self._rename.get(ff.name, ff.name)
                 setattr(self, pyname, vv)
+            elif (
+                isinstance(ff.ftype, Ref)
+                and "_dressed_" + ff.name in self.__dict__
+            ):
+                # a dressed object kept for a reference is valid only as
+                # long as it views the object the reference points to
+                dressed = self.__dict__["_dressed_" + ff.name]
+                target = getattr(_xobject, ff.name)
+                if (
+                    target is None
+                    or target._buffer is not dressed._xobject._buffer
+                    or target._offset != dressed._xobject._offset
+                ):
+                    del self.__dict__["_dressed_" + ff.name]
 
     def xoinitialize(self, _xobject=None, _kwargs_name_check=True, **kwargs):
         if _kwargs_name_check:
